@@ -29,8 +29,10 @@ VALUE_POOLS = {
     "starting": ["starting_q", "q", "starting_0", 0],
     "hidden": ["INITIAL_STACK_HIDDEN", "q", "starting_INITIAL_STACK_HIDDEN"],
     "float": [0.5, 1.5, 2, "2"],
+    "falsy": [0, "", "0", 0.5],
 }
-SYMBOL_POOLS = {"ab": ["a", "b"], "odd": ["a b", "x,y", "->", "/"], "num": [1, 2.5, "1"], "uni": ["é", "ß"]}
+SYMBOL_POOLS = {"ab": ["a", "b"], "odd": ["a b", "x,y", "->", "/"], "num": [1, 2.5, "1"], "uni": ["é", "ß"],
+                "falsy": [0, "", "0"]}
 
 
 @st.composite
@@ -45,11 +47,11 @@ def machine(draw, kind):
     if kind == "fa":
         tr = st.tuples(st.sampled_from(states), lab, st.sampled_from(states)).map(list)
     elif kind == "pda":
-        stack = SYMBOL_POOLS[draw(st.sampled_from(["ab", "odd", "num"]))] + ["Z"]
+        stack = SYMBOL_POOLS[draw(st.sampled_from(["ab", "odd", "num", "falsy"]))] + ["Z"]
         push = st.lists(st.sampled_from(stack), max_size=3)
         tr = st.tuples(st.sampled_from(states), lab, st.sampled_from(stack), st.sampled_from(states), push).map(list)
     else:
-        outs = SYMBOL_POOLS[draw(st.sampled_from(["ab", "odd", "num"]))]
+        outs = SYMBOL_POOLS[draw(st.sampled_from(["ab", "odd", "num", "falsy"]))]
         tr = st.tuples(st.sampled_from(states), lab, st.sampled_from(states), st.lists(st.sampled_from(outs), max_size=3)).map(list)
     trans = draw(st.lists(tr, min_size=m, max_size=m, unique_by=repr))
     ns = draw(st.sampled_from([1, 2, 1, 0, 3]))
